@@ -20,22 +20,27 @@ from harness.geom import DirStub
 from harness.fgstub import make_fullgrid, BRot
 
 PROPERTY = "C09"
-FUNCTIONS = ["molgri.space.fullgrid.FullGrid.get_full_grid_as_array", "FullGrid.get_position_index", "FullGrid.get_quaternion_index", "FullGrid.__len__",
+FUNCTIONS = ["molgri.space.fullgrid.from_full_array_to_o_b_t", "molgri.space.fullgrid.FullGrid.get_full_grid_as_array", "FullGrid.get_position_index", "FullGrid.get_quaternion_index", "FullGrid.__len__",
              "FullGrid.get_b_N/get_o_N/get_t_N", "PositionGrid.get_position_grid_as_array", "PositionGrid.__len__", "fullgrid._t_and_o_2_positions"]
-STUBS = ["direction / rotation grids -> objects returning symbolic coordinate arrays (N x 3, N x 4)", "np constructors -> object arrays"]
+STUBS = ["direction / rotation grids -> objects returning symbolic coordinate arrays (N x 3, N x 4)", "np constructors -> object arrays",
+         "np.unique(rows, return_index=True, axis=0) -> first occurrence of every distinct row, row equality decided by the solver; np.round(x, 8) -> rint(1e8 x)/1e8 "
+         "with rint uninterpreted, |rint(y)-y| <= 1/2, odd"]
 ASSUMPTIONS = ["radii are already in Angstrom here (the x10 conversion is proved under C16)", "float modelled by the reals"]
-OUTSIDE = ["from_full_array_to_o_b_t: rounding to 8 decimals + lexicographic np.unique of float rows; in the real-number model it proves nothing about the "
-           "float behaviour the claim is about", "sizes beyond the bound"]
+OUTSIDE = ["decomposition of the direction and radial parts on SYMBOLIC values (sqrt + division inside np.unique's row comparisons: feasibility checks come back "
+           "unknown); they run on concrete generic numbers inside the decompose shapes, only the quaternion part is symbolic there", "float rounding effects of np.round(x, 8)",
+           "sizes beyond the bound"]
 
 
 def bounds(tier):
     b = [1, 2, 3] if tier == "quick" else [1, 2, 3, 4]
-    return {"n_b": b, "n_o": b, "n_t": b, "row_index": "symbolic integer", "index_arrays": "None, every single index, reversed, seeded subset with repeats"}
+    return {"n_b": b, "n_o": b, "n_t": b, "row_index": "symbolic integer", "index_arrays": "None, every single index, reversed, seeded subset with repeats",
+            "decompose": "n_b*n_o*n_t <= 12, quaternions symbolic and pairwise separated by > 1e-7, directions / radii concrete generic"}
 
 
 def shapes(tier, seed):
     b = [1, 2, 3] if tier == "quick" else [1, 2, 3, 4]
-    out = [{"n_b": x, "n_o": y, "n_t": t} for x in b for y in b for t in b]
+    out = [{"kind": "rows", "n_b": x, "n_o": y, "n_t": t} for x in b for y in b for t in b]
+    out += [{"kind": "decompose", "n_b": x, "n_o": y, "n_t": t, "gseed": seed} for x in b for y in b for t in b if x * y * t <= 12]
     out.sort(key=lambda s: s["n_b"] * s["n_o"] * s["n_t"])
     return out
 
@@ -48,7 +53,74 @@ def ite_chain(rows, n):
     return acc
 
 
+def _concrete_o_r(shape):
+    rng = np.random.default_rng(100 + shape.get("gseed", 0) + 7 * shape["n_o"] + shape["n_t"])
+    O = rng.normal(size=(shape["n_o"], 3))
+    O /= np.linalg.norm(O, axis=1)[:, None]
+    r = np.cumsum(rng.uniform(0.5, 1.5, size=shape["n_t"]))
+    return O, r
+
+
+def run_decompose(shape):
+    """from_full_array_to_o_b_t on the array of the real get_full_grid_as_array: directions and radii concrete generic numbers, the
+    QUATERNIONS symbolic (any reals, pairwise separated by more than the 1e-8 rounding grid).  The order-preserving de-duplication
+    (round to 8 decimals, np.unique(return_index) on rows, np.sort of the indices) is decided by the solver."""
+    import molgri.space.fullgrid as F
+    import molgri.space.translations as TR
+    import molgri.space.voronoi as Vm
+    n_b, n_o, n_t = shape["n_b"], shape["n_o"], shape["n_t"]
+    O, r = _concrete_o_r(shape)
+    Q = [[z3.Real(f"q{i}_{c}") for c in range(4)] for i in range(n_b)]
+    eng = Engine()
+    prover = Prover(timeout_ms=20000, budget_s=300)
+    acc = Acc(shape)
+    sep = z3.RealVal("1/10000000")
+    for i in range(n_b):
+        for j in range(i + 1, n_b):
+            eng.assume_global(z3.Or([z3.Or(Q[i][c] - Q[j][c] > sep, Q[j][c] - Q[i][c] > sep) for c in range(4)]))
+    proxy = NPProxy()
+
+    def body():
+        with bound(F, print=noprint, np=proxy), bound(TR, np=proxy, print=noprint):
+            o = DirStub(n_o, [], [1.0] * n_o, {}, {}, sp, lambda l: sarr(l), coords=O.copy())
+            fg = make_fullgrid(F, TR, Vm, 1, o, r.copy(), 2)
+            fg.b_rotations = BRot(n_b, sarr([[SR(x) for x in row] for row in Q]), None)
+            arr = fg.get_full_grid_as_array()
+            return F.from_full_array_to_o_b_t(arr)
+
+    for path in eng.explore(body):
+        acc.begin(prover, path)
+        if path.kind == "exc":
+            acc.structural("no_exception", False, detail=repr(path.value) + (path.tb or "")[-600:], cex={"kind": "exception", "exc": type(path.value).__name__, "model": _model(path)})
+            continue
+        if acc.reachable is not True:
+            acc.reach(prover.satisfiable(path.premises))
+        uo, ub, ut = path.value
+        m = _model(path)
+        ok_o = tuple(np.shape(uo)) == (n_o, 3) and np.allclose(np.asarray(uo, dtype=float), O, atol=1e-9)
+        acc.structural("directions_recovered_in_order", ok_o, detail=str(np.shape(uo)), cex={"model": m})
+        ok_t = tuple(np.shape(ut)) == (n_t,) and np.allclose(np.asarray(ut, dtype=float), r, atol=2e-8)
+        acc.structural("radii_recovered_in_order", ok_t, detail=str(np.shape(ut)), cex={"model": m})
+        ok_b = tuple(np.shape(ub)) == (n_b, 4)
+        acc.structural("rotation_grid_shape", ok_b, detail=str(np.shape(ub)), cex={"model": m})
+        if ok_b:
+            acc.add(prover.prove_all(path.premises, [(f"rotation_recovered_in_order[{i},{c}]", z(ub[i, c]) == Q[i][c]) for i in range(n_b) for c in range(4)]), make_cex=lambda r_: {})
+    return acc.result(eng.stats, prover.stats)
+
+
+def _model(path):
+    s_ = z3.Solver()
+    s_.set("timeout", 3000)
+    s_.add(*path.premises)
+    if s_.check() == z3.sat:
+        from symx.prove import model_to_dict
+        return {k: (str(v) if not isinstance(v, bool) else v) for k, v in model_to_dict(s_.model()).items()}
+    return {}
+
+
 def run_shape(shape):
+    if shape.get("kind") == "decompose":
+        return run_decompose(shape)
     import molgri.space.fullgrid as F
     import molgri.space.translations as TR
     import molgri.space.voronoi as Vm
@@ -115,7 +187,37 @@ def run_shape(shape):
     return acc.result(eng.stats, prover.stats)
 
 
+def replay_decompose(cex):
+    import molgri.space.fullgrid as F
+    import molgri.space.translations as TR
+    import molgri.space.voronoi as Vm
+    import scipy.sparse as rsp
+    s = cex["shape"]
+    n_b, n_o, n_t = s["n_b"], s["n_o"], s["n_t"]
+    O, r = _concrete_o_r(s)
+    model = cex.get("model", {}) or {}
+    rng = np.random.default_rng(9)
+    Q = np.array([[fval(model, f"q{i}_{c}", float(rng.normal())) for c in range(4)] for i in range(n_b)])
+    o = DirStub(n_o, [], [1.0] * n_o, {}, {}, rsp, lambda l: np.array(l), coords=O.copy())
+    fg = make_fullgrid(F, TR, Vm, 1, o, r.copy(), 2)
+    fg.b_rotations = BRot(n_b, Q, None)
+    try:
+        uo, ub, ut = F.from_full_array_to_o_b_t(fg.get_full_grid_as_array())
+    except Exception as e:  # noqa: BLE001
+        return {"reproduced": True, "detail": f"raised {e!r}"}
+    bad = []
+    if np.shape(uo) != (n_o, 3) or not np.allclose(uo, O, atol=1e-9):
+        bad.append(f"directions {np.shape(uo)}")
+    if np.shape(ut) != (n_t,) or not np.allclose(ut, r, atol=2e-8):
+        bad.append(f"radii {np.shape(ut)}")
+    if np.shape(ub) != (n_b, 4) or not np.allclose(ub, Q, atol=1e-12):
+        bad.append(f"rotation grid {np.shape(ub)} for quaternions {Q.tolist()}")
+    return {"reproduced": bool(bad), "detail": str(bad)}
+
+
 def replay(cex):
+    if cex["shape"].get("kind") == "decompose":
+        return replay_decompose(cex)
     import molgri.space.fullgrid as F
     import molgri.space.translations as TR
     import molgri.space.voronoi as Vm
@@ -154,7 +256,7 @@ def replay(cex):
 
 
 def finding_key(cex):
-    return f"C09:{cex['obligation'].split('[')[0]}"
+    return f"C09:{cex['shape'].get('kind', 'rows')}:{cex['obligation'].split('[')[0]}"
 
 
 def selftest(seed):
